@@ -1,6 +1,6 @@
 import BridgeVerif.Translated.ThreadsMainALemmasC
 /-! Translated `MainThread.bidding_phase`: the turn in which `take_bid` answers `illegal` -/
-namespace Bridge.Translated
+namespace Bridge.Translated.MainA
 open Bridge Bridge.Py Bridge.Generated.PyCore
 
 theorem mt_execF_append_err (r : Rec) (l1 l2 : List Stmt) (e : Err) : ∀ (env : Env), execF r P env l1 = .error e →
@@ -72,4 +72,4 @@ theorem mt_turn_illegal (f : Nat) (i : Seat → List Str) (more : List (Val × V
   exact mt_execF_append_err _ _ _ _ _
     (mt_prefix_illegal f i more out table tables bs dv vv s a ha msg r hi msg' xa hpre c xp hparse s1 ht tail htail)
 
-end Bridge.Translated
+end Bridge.Translated.MainA
